@@ -594,4 +594,31 @@ example :
     skippedB T want (.str [66]) = true ∧ skippedB T want (.str [65]) = false ∧ skippedB T want (.str [67]) = false := by
   decide
 
+/-! ## C06 on `Chart.from_file` as written: the three required sections, demanded before any section is parsed -/
+
+/-- obligation on the regenerated constant: the required titles are `Song`, `SyncTrack`, `Events` -/
+theorem req_tags : seqOf REQ = some [SONG, SYNC, EVENTS] := by decide
+
+theorem allReqV_dict (S : List (Val × Val)) :
+    allReqV (.dict (encEntries S)) = .ok ([SONG, SYNC, EVENTS].all fun t => S.any (·.1 == t)) := by
+  have hf : (fun x => containsV x (.dict (encEntries S)) >>= truth) = fun x => .ok (S.any (·.1 == x)) := by
+    funext x
+    simp [containsV, dictEntries_enc, bind, Except.bind]
+  unfold allReqV
+  rw [req_tags, hf]
+  exact allM_pure _ _
+
+/-- **a chart lacking a required section is rejected with `ValueError` before anything is parsed** (no section parser occurs in the
+    conclusion: the result does not depend on what `Metadata`, `SyncTrack`, … would do) -/
+theorem fileV_missing_required (ext : Ext) (c fp want text lines : Val) (S : List (Val × Val))
+    (hread : ext ".read" [fp] = .ok text) (hsplit : ext ".splitlines" [text] = .ok lines)
+    (hscan : ext "._partition_lines_by_data_section" [c, lines] = .ok (.dict (encEntries S)))
+    (hmiss : ([SONG, SYNC, EVENTS].all fun t => S.any (·.1 == t)) = false) :
+    fileV ext c fp want = .error .valueError := by
+  unfold fileV
+  simp [hread, hsplit, hscan, allReqV_dict, hmiss, bind, Except.bind]
+
+/-- non-vacuity: sections `Song` and `Events` only -/
+example : ([SONG, SYNC, EVENTS].all fun t => [(SONG, Val.list .nil), (EVENTS, Val.list .nil)].any (·.1 == t)) = false := by decide
+
 end Chartparse.Tie
